@@ -182,6 +182,7 @@ func init() {
 			}
 			c.m.block(c.t, &waitRec{kind: "quiesce", what: "verifWaitQuiescent", ins: c.ins})
 		},
+		"verifSettle": func(c *stubCtx) { stubTable["verifWaitQuiescent"](c) },
 		"verifBlocked": func(c *stubCtx) {
 			n := 0
 			for _, t := range c.m.threads {
@@ -268,8 +269,31 @@ func init() {
 		"time.Now": func(c *stubCtx) { c.ret(c.m.timeNow()) },
 		"time.Sleep": func(c *stubCtx) {
 			d := c.args[0].(*smt.Term)
+			if c.m.Cfg.Opts["sleep"] == "gate" && c.t.ID != 0 {
+				// gated: a sleeping goroutine continues only when the harness grants a wake-up token (verifWake)
+				if c.m.sleepTokens > 0 {
+					c.m.sleepTokens--
+					c.ret(nil)
+					return
+				}
+				c.m.block(c.t, &waitRec{kind: "sleep", check: func() bool { return c.m.sleepTokens > 0 }, what: "time.Sleep (gated)@" + c.m.pos(c.ins), ins: c.ins})
+				return
+			}
 			c.m.advanceClock(d)
 			c.ret(nil)
+		},
+		"verifWake": func(c *stubCtx) {
+			n := c.args[0].(*smt.Term)
+			c.m.sleepTokens += int(n.SInt())
+			c.ret(nil)
+		},
+		"verifAdvance": func(c *stubCtx) {
+			c.m.advanceClock(c.args[0].(*smt.Term))
+			c.ret(nil)
+		},
+		"(*github.com/karagenc/yeast.Yeaster).Yeast": func(c *stubCtx) {
+			c.m.yeastN++
+			c.ret(mkStr(fmt.Sprintf("y%d", c.m.yeastN)))
 		},
 		"time.After": func(c *stubCtx) {
 			ch := c.m.newChan(1, nil)
